@@ -575,6 +575,9 @@ class Explorer:
         self.horizon = horizon
         # safety net against run-away configurations: a capped run is reported as capped (never as exhaustive)
         self.max_exec = max_exec if max_exec is not None else int(os.environ.get("DSMC_MAX_EXEC", "60000"))
+        # optional wall-clock budget of one configuration (thorough tier); exceeding it is a reported cap
+        self.max_wall = float(os.environ.get("DSMC_MAX_WALL", "0") or 0) or None
+        self._t_begin = REAL_TIME()
         self.seed = seed
         self.clock_mode = clock_mode
         self.has_extra = has_extra
@@ -663,6 +666,8 @@ class Explorer:
                 self._dfs()
                 if self.cap_hit and self.max_exec is not None and self.stats["executions"] >= self.max_exec:
                     break
+                if self.cap_hit and self.max_wall is not None and REAL_TIME() - self._t_begin > self.max_wall:
+                    break
                 if not self._grow_shared():
                     break
         finally:
@@ -679,6 +684,9 @@ class Explorer:
         n_round = 0
         while stack:
             if self.max_exec is not None and self.stats["executions"] >= self.max_exec:
+                self.cap_hit = True
+                return
+            if self.max_wall is not None and REAL_TIME() - self._t_begin > self.max_wall:
                 self.cap_hit = True
                 return
             prefix, fps = stack.pop()
